@@ -283,6 +283,8 @@ func init() {
 			v2 := w.Pkg(pathV2)
 			ruleYamlTypes(w, r, v2)
 			ruleCodecRoutes(w, r, v2, "v2")
+			ruleRenderIdentity(w, r, v2)
+			ruleRawTypes(w, r, v2)
 			ruleJSONCodec(w, r, v2, "v2")
 			r.Floor("R-YAMLTYPES", 12)
 			r.Floor("R-CODEC", 20)
@@ -335,5 +337,46 @@ func init() {
 			ruleFWD(w, r, pf, []string{"newValues", "strategy", "pathAhead"})
 			ruleDescend(w, r, pf)
 			rulePathFresh(w, r, v2, "v2")
+		}})
+}
+
+func init() {
+	register(&PropSpec{ID: "C06",
+		Explain: "Decides narrow structural necessary conditions of a minimal list diff with context: (R-LCSDEP) the common subsequence handed to the hunk walk is computed by a call that receives the hash sequences of both arrays, each sequence is built from its own side's element hashCodes, the continuation of the walk receives the rest of the caller's sequences, and same-kind containers at the same position are diffed recursively on the sameContainerType-true edge instead of being replaced; (R-CTX1) every Before/After stored into a list hunk is a one-element list and the accumulating hunk is created with its before-context; (R-PROV) Before is drawn from the argument side and After from the receiver side (that is how list patch compares them).",
+		NotDecided:  "Minimality itself (size of the edit script against an optimum for every pair) and that the recorded context equals the neighbouring element: numeric/value statements.",
+		Assumptions: commonAssumptions,
+		Run: func(w *World, r *Report) {
+			v2 := w.Pkg(pathV2)
+			ruleListDiff(w, r, v2)
+			ruleProv(w, r, v2, "v2", map[string]string{"Before": "b", "After": "a"})
+		}})
+}
+
+func init() {
+	register(&PropSpec{ID: "C17",
+		Explain: "Decides narrow structural necessary conditions of the v1 (package lib) round trip and of `diff empty iff Equals`: (R-FWD(lib)) every recursive patch call forwards the caller's own old/new values, strategy and remaining path, and patchAll hands each hunk's own fields and the strategy derived from its path; (R-OPTFWD(lib)) every comparison made by Equals/hashCode/diff code receives the caller's own metadata (three call sites that only matter for metadata combinations outside C17's quantifier are exempt by name, with the reason in the checker's table); (R-PROV(lib)) OldValues are drawn from the receiver side and NewValues from the argument side; (R-NOEMPTY(lib)) accumulated set/multiset hunks are emitted only when non-empty and the scalar diff is empty exactly on the Equals-true edge; (R-PATHFRESH(lib)) hunks own their paths.",
+		NotDecided:  "Positional list diff arithmetic (reverse order when shrinking, -1 append), in-path metadata decoding on values, rejection of bad patches (not promised by C17).",
+		Assumptions: commonAssumptions,
+		Run: func(w *World, r *Report) {
+			lib := w.Pkg(pathLib)
+			pf := newPatchFamily(w, lib, "lib")
+			ruleFWD(w, r, pf, []string{"pathAhead", "oldValues", "newValues", "strategy"})
+			ruleOptFwd(w, r, lib, "lib", "Metadata", nil, libOptExempt)
+			ruleProv(w, r, lib, "lib", map[string]string{"OldValues": "a", "NewValues": "b"})
+			ruleNoEmpty(w, r, lib, "lib", "OldValues", "NewValues")
+			rulePathFresh(w, r, lib, "lib")
+			r.Floor("R-FWD(lib)", 60)
+			r.Floor("R-OPTFWD(lib)", 80)
+		}})
+	register(&PropSpec{ID: "C18",
+		Explain: "Decides narrow structural necessary conditions of the v1 RFC renderings and readers: (R-PTR(lib)) writePointer writes a token for every path element or fails, keys reach the pointer only through jsonpointer.Escape; (R-PAIR(lib)) only test/remove/add ops, every remove right after a test of the same pointer and value; (R-PATHFRESH(lib)) hunks built by the readers own their paths; (R-JSONCODEC(lib)) one JSON encoding.",
+		NotDecided:  "Equivalence with RFC 6902 / RFC 7386 evaluators on values; the deferred string-or-integer typing of pointer tokens at patch time.",
+		Assumptions: commonAssumptions,
+		Run: func(w *World, r *Report) {
+			lib := w.Pkg(pathLib)
+			rulePtr(w, r, lib, "lib")
+			rulePair(w, r, lib, "lib")
+			rulePathFresh(w, r, lib, "lib")
+			ruleJSONCodec(w, r, lib, "lib")
 		}})
 }
